@@ -6,6 +6,9 @@ import Mahotas.Proofs.C14Holes
 import Mahotas.Proofs.C14Reg
 import Mahotas.Proofs.StarCheck
 import Mahotas.Proofs.C14Families
+import Mahotas.Proofs.C14Hitmiss
+import Mahotas.Proofs.C14Centre
+import Mahotas.Proofs.C14RegSpec
 open Mahotas Mahotas.C14
 
 /-- **C14-T1 (local extrema).** For every image of every rank and shape, every pixel `p` inside it and
@@ -238,3 +241,183 @@ example :
   exact ⟨(C14_locmax_eq_spec_cross_box_disk false A [3, 3] (C01.crossElem 2 1) (Or.inl ⟨1, rfl, rfl⟩)).2,
     C14_regional_eq_spec_cross_box_disk false A [3, 3] (C01.crossElem 2 1) (Or.inl ⟨1, rfl, rfl⟩) [0, 1]
       (by decide), by decide⟩
+
+/-! ## Round 4 — every template shape for `hitmiss`, the centre entry of `Bc`, boxes with even sides,
+arbitrary neighbourhoods, the executable `regSpec`, plateaus of global extrema -/
+
+/-- **`hitmiss` in closed form for every template shape** (odd sides, even sides, templates larger than
+the image; any rank ≥ 1): the model of the kernel — the `slack` border skipping and the conjunction over
+the entries different from 2 — is 1 at `p` exactly when (a) the whole template lies inside the image when
+centred at `p` (centre `⌊b/2⌋` on every axis), (b) `p` is not skipped by the even-side rule
+`hmEvenExcluded`: on an axis with an even side `b`, the **last** axis evaluates every fitting position unless
+the image side equals `b` (then none), every **other** axis rejects the last fitting position `n − b/2`,
+and (c) every 0/1 entry equals the pixel under it. This is `hitmissClosedAt`, which the driver prints next to
+the model. -/
+theorem C14_hitmiss_even_closed_form (A : Img Int) (bshape : List Nat) (bc : Array Int) (p : List Int)
+    (hpos : ∀ b ∈ bshape, 0 < b) (hne : A.shape ≠ [])
+    (hl1 : bshape.length = A.shape.length) (hl2 : p.length = A.shape.length) :
+    hitmissAt A bshape (hmEntries bshape bc) p = hitmissClosedAt A bshape bc p := by
+  unfold hitmissAt hitmissClosedAt
+  rw [hmEvaluated_closed A.shape bshape p hpos hne hl1 hl2, hmEntries_all]
+  cases (templateInside A.shape bshape p && !hmEvenExcluded A.shape bshape p) <;> simp
+
+/-- the closed form is the property's definition when every template side is odd (nothing is skipped). -/
+theorem C14_hitmiss_closed_form_odd (A : Img Int) (bshape : List Nat) (bc : Array Int) (p : List Int)
+    (hodd : ∀ b ∈ bshape, b % 2 = 1) : hitmissClosedAt A bshape bc p = hitmissSpecAt A bshape bc p := by
+  unfold hitmissClosedAt hitmissSpecAt
+  rw [hmEvenExcluded_odd A.shape bshape p hodd]; simp
+
+/-- **a template that does not fit gives the all-zero answer.** If on some axis `i` the template side exceeds
+the image side — or equals it and is even — then the model of `hitmiss` is 0 at **every** position, whatever
+the entries and the order in which they are tested (no hypothesis on ranks or on `p`). -/
+theorem C14_hitmiss_template_larger_is_false (A : Img Int) (bshape : List Nat) (es : List (List Int × Int))
+    (p : List Int) (i : Nat) (hi : i < A.shape.length)
+    (h : A.shape.getD i 0 < bshape.getD i 0 ∨
+         (A.shape.getD i 0 = bshape.getD i 0 ∧ bshape.getD i 0 % 2 = 0)) :
+    hitmissAt A bshape es p = 0 := by
+  unfold hitmissAt
+  rw [hmEvaluated_false_of_small A.shape bshape p i hi (by omega)]; rfl
+
+/-- **`_remove_centre` and the C++ centre skipping, as the driver runs them.** `locModelRaw` / `regModelRaw`
+take the structuring element **as given**: `removeCentre` clears the entry at `tuple(s//2)` (Python), the
+local pass runs over the compressed footprint `rawOffsets` of what is left, the removal pass over the C++
+`neighbours(Bc)`. They equal the models on the neighbour list `neighbours S bc` that all other theorems of
+this file talk about — so those theorems are about what the driver runs. -/
+theorem C14_remove_centre_model (isMin : Bool) (A : Img Int) (S : List Nat) (bc : Array Int) :
+    rawOffsets S (removeCentre S bc) = neighbours S bc ∧
+    neighbours S (removeCentre S bc) = neighbours S bc ∧
+    locModelRaw isMin A S bc = locModel isMin A (neighbours S bc) ∧
+    regModelRaw isMin A S bc = regModel isMin A (neighbours S bc) :=
+  ⟨rawOffsets_removeCentre S bc, neighbours_removeCentre S bc, locModelRaw_eq isMin A S bc,
+    regModelRaw_eq isMin A S bc⟩
+
+/-- **the centre entry of `Bc` is irrelevant.** For every image, every structuring element of every shape
+(even sides and `1`-sides included) and **every** value `v` written at the centre entry
+`Bc[tuple(s//2 for s in Bc.shape)]`: the models of `locmax`/`locmin` and of `regmax`/`regmin` on the element
+as given return the same array, and so does the neighbour list `close_holes` floods with. -/
+theorem C14_remove_centre_irrelevant (isMin : Bool) (A : Img Int) (S : List Nat) (bc : Array Int) (v : Int) :
+    locModelRaw isMin A S (bc.setIfInBounds (ravelI S (centreOf S)) v) = locModelRaw isMin A S bc ∧
+    regModelRaw isMin A S (bc.setIfInBounds (ravelI S (centreOf S)) v) = regModelRaw isMin A S bc ∧
+    closeHoles A (neighbours S (bc.setIfInBounds (ravelI S (centreOf S)) v)) = closeHoles A (neighbours S bc) := by
+  rw [locModelRaw_eq, locModelRaw_eq, regModelRaw_eq, regModelRaw_eq, neighbours_setCentre]
+  exact ⟨rfl, rfl, rfl⟩
+
+/-- **the Python `_remove_centre` is itself unobservable**: had the centre been left set, the kernel would
+read the pixel itself through the zero offset, and a pixel does not beat itself. For every pixel inside
+the image and every element of the rank of the image, the local pass over the *uncleared* footprint
+answers as over the neighbour list. -/
+theorem C14_remove_centre_unobservable (isMin : Bool) (A : Img Int) (S : List Nat) (bc : Array Int)
+    (p : List Int) (hp : inside A.shape p = true) (hS : S.length = A.shape.length) :
+    locAt isMin A (rawOffsets S bc) p = locAt isMin A (neighbours S bc) p :=
+  locAt_rawOffsets isMin A S bc p hp hS
+
+/-- **local extrema with an all-ones box of arbitrary sides (even sides included) = their definition.**
+A box with an even side is not symmetric (its centre `⌊b/2⌋` is off-centre) but it is coordinate-wise
+star-shaped; hence for every rank, every image, every all-ones box of the rank of the image — sides 1, 2, 3,
+4, … in any combination — the model of `locmax`/`locmin` on the element as given marks exactly the pixels
+that no neighbour inside the image exceeds / undercuts, pixel by pixel and as whole output arrays (the two
+lists the driver prints). -/
+theorem C14_locmax_eq_spec_any_box (isMin : Bool) (A : Img Int) (S : List Nat) (bc : Array Int)
+    (hrank : S.length = A.shape.length) (hones : ∀ i, i < shapeSize S → bc.getD i 0 = 1) :
+    StarShaped (neighbours S bc) ∧
+    (∀ p, inside A.shape p = true →
+      locAt isMin A (neighbours S bc) p = locSpecAt isMin A (neighbours S bc) p) ∧
+    (locModelRaw isMin A S bc).toList = (allPos A.shape).map (locSpecAt isMin A (neighbours S bc)) := by
+  have hstar := starShaped_box S bc hones
+  have key : ∀ p, inside A.shape p = true →
+      locAt isMin A (neighbours S bc) p = locSpecAt isMin A (neighbours S bc) p := by
+    intro p hp
+    refine locAt_eq_spec isMin A _ p hp ?_ hstar
+    intro k hk
+    rw [neighbours_box_len S bc hones k hk, hrank, C01.inside_length hp]
+  refine ⟨hstar, key, ?_⟩
+  rw [locModelRaw_eq]
+  unfold locModel
+  rw [List.toList_toArray]
+  exact List.map_congr_left fun p hp => key p ((C01.mem_allPos A.shape p).mp hp)
+
+/-- **arbitrary (irregular) neighbourhoods: what `locmax`/`locmin` compute.** For every non-empty image and
+**every** list of offsets — not star-shaped, not symmetric, of any size — the model of `locmin_max`
+(neighbours read through `fix_offset(ExtendNearest)`) marks `p` exactly when no value at a neighbour
+position *clamped onto the image coordinate by coordinate* (`max 0 (min x (n−1))`) beats the pixel
+(`locClampedSpecAt`, printed by the driver as `cspec`): the irregular cases of the correspondence are judged
+against this specification. -/
+theorem C14_locmax_clamped_spec (isMin : Bool) (A : Img Int) (nb : List (List Int)) (p : List Int)
+    (hs : ∀ d ∈ A.shape, 0 < d) : locAt isMin A nb p = locClampedSpecAt isMin A nb p :=
+  locAt_eq_clamped isMin A nb p hs
+
+/-- **the executable specification `regSpec` = `Regional`** (partial: the fixed point is a hypothesis). The
+driver prints, next to the model of `regmax`/`regmin`, the array `regSpec`: start from the pixels with a
+strictly better neighbour inside the image and repeat `size` times "a pixel is rejected when an equal-valued
+neighbour (either direction) is rejected". For every symmetric neighbourhood: a rejected pixel is **never**
+regional (soundness, unconditional: `regSpecBad_sound`); and when one more round changes nothing
+(`regSpecFixed`, which the driver evaluates and prints as `fix=1`; the harness reports `fix=0` as a broken
+correspondence) the accepted pixels are exactly the regional ones. Missing: a proof that `size` rounds always
+reach the fixed point. -/
+theorem C14_regspec_eq_regional_partial (isMin : Bool) (A : Img Int) (nb : List (List Int)) (hn : SymNb A nb)
+    (hfix : regSpecFixed isMin A nb = true) (q : List Int) (hq : inside A.shape q = true) :
+    (regSpec isMin A nb).getD (ravelI A.shape q) false = true ↔ Regional isMin A nb q :=
+  regSpec_iff hn hfix q hq
+
+/-- **plateaus of global extrema are marked, wherever they lie** (specialising `C14_regional_eq_spec`): for
+every cross / disk / odd box of the rank of the image and every pixel `q` inside the image whose value no
+pixel of the image exceeds (`regmax`) / undercuts (`regmin`), the model of `regmax`/`regmin` on the element as
+given marks `q` — in particular plateaus touching the border or a corner, several tied plateaus of the
+maximal value, and every pixel of a constant image. -/
+theorem C14_regmax_marks_global_extrema (isMin : Bool) (A : Img Int) (S : List Nat) (bc : Array Int)
+    (hfam : C01.CrossBoxDisk A.shape.length S bc) (q : List Int) (hq : inside A.shape q = true)
+    (hg : ∀ r, inside A.shape r = true → beats isMin (A.getD r 0) (A.getD q 0) = false) :
+    (regModelRaw isMin A S bc).getD (ravelI A.shape q) false = true := by
+  rw [regModelRaw_eq]
+  exact (C14_regional_eq_spec_cross_box_disk isMin A S bc hfam q hq).mpr (regional_of_global q hg)
+
+/-! non-vacuity of Round 4 -/
+
+/-- 2×2 template on a 3×3 image: the template fits at rows/columns 1..2; the first axis rejects row 2 (the
+    last fitting position), the last axis keeps both columns → positions (1,1), (1,2) are evaluated. -/
+example :
+    let A : Img Int := { shape := [3, 3], data := #[1, 1, 1, 1, 1, 1, 1, 1, 1] }
+    (allPos A.shape).map (hitmissAt A [2, 2] (hmEntries [2, 2] #[1, 1, 1, 1])) = [0, 0, 0, 0, 1, 1, 0, 0, 0] ∧
+    (allPos A.shape).map (hitmissClosedAt A [2, 2] #[1, 1, 1, 1]) = [0, 0, 0, 0, 1, 1, 0, 0, 0] ∧
+    (allPos A.shape).map (hitmissSpecAt A [2, 2] #[1, 1, 1, 1]) = [0, 0, 0, 0, 1, 1, 0, 1, 1] := by decide
+
+/-- a 1×4 template on a 2×3 image (larger on the last axis), a 2-template on a 2-image (even, equal) -/
+example : hitmissAt { shape := [2, 3], data := #[1, 1, 1, 1, 1, 1] } [1, 4] [] [0, 1] = 0 :=
+  C14_hitmiss_template_larger_is_false _ _ _ _ 1 (by decide) (Or.inl (by decide))
+example : hitmissAt { shape := [2], data := #[1, 1] } [2] [] [1] = 0 :=
+  C14_hitmiss_template_larger_is_false _ _ _ _ 0 (by decide) (Or.inr (by decide))
+
+/-- centre set / cleared / set to 7: same neighbour list; 2×2 all-ones box (even sides): neighbours
+    (-1,-1), (-1,0), (0,-1), star-shaped but not symmetric -/
+example : neighbours [3] #[1, 1, 1] = [[-1], [1]] ∧ rawOffsets [3] #[1, 1, 1] = [[-1], [0], [1]] ∧
+    rawOffsets [3] (removeCentre [3] #[1, 1, 1]) = [[-1], [1]] ∧
+    neighbours [2, 2] #[1, 1, 1, 1] = [[-1, -1], [-1, 0], [0, -1]] ∧
+    symNbB 2 (neighbours [2, 2] #[1, 1, 1, 1]) = false := by decide
+
+example :
+    let A : Img Int := { shape := [2, 3], data := #[2, 2, 1, 0, 1, 2] }
+    (locModelRaw false A [2, 2] #[1, 1, 1, 1]).toList = (allPos A.shape).map (locSpecAt false A (neighbours [2, 2] #[1, 1, 1, 1])) ∧
+    (locModelRaw false A [2, 2] #[1, 1, 1, 1]).toList = [true, true, false, false, false, true] :=
+  ⟨(C14_locmax_eq_spec_any_box false _ [2, 2] #[1, 1, 1, 1] rfl (by decide)).2.2, by decide⟩
+
+/-- an irregular neighbourhood (offset (0,2) without (0,1)): model = clamped specification ≠ `locSpecAt` -/
+example :
+    let A : Img Int := { shape := [1, 3], data := #[0, 1, 5] }
+    (allPos A.shape).map (locAt false A [[0, 2]]) = [false, false, true] ∧
+    (allPos A.shape).map (locClampedSpecAt false A [[0, 2]]) = [false, false, true] ∧
+    (allPos A.shape).map (locSpecAt false A [[0, 2]]) = [false, true, true] := by decide
+
+/-- `regSpec` reaches its fixed point on the 2×3 example (its rejected set is the complement of the model's marks); the maximal plateau
+    {(0,0),(0,1)} touches the border and is marked. -/
+example :
+    let A : Img Int := { shape := [2, 3], data := #[2, 2, 1, 0, 1, 2] }
+    regSpecFixed false A (neighbours [3, 3] (C01.crossElem 2 1)) = true ∧
+    (regSpecBad false A (neighbours [3, 3] (C01.crossElem 2 1))).toList = [false, false, true, true, true, false] ∧
+    (regModelRaw false A [3, 3] (C01.crossElem 2 1)).getD (ravelI A.shape [0, 1]) false = true := by
+  intro A
+  refine ⟨by decide, by decide, ?_⟩
+  exact C14_regmax_marks_global_extrema false A [3, 3] (C01.crossElem 2 1) (Or.inl ⟨1, rfl, rfl⟩) [0, 1] (by decide)
+    (by
+      intro r hr
+      have hall : ∀ r ∈ allPos A.shape, beats false (A.getD r 0) (A.getD [0, 1] 0) = false := by decide
+      exact hall r ((C01.mem_allPos A.shape r).mpr hr))
